@@ -1,4 +1,5 @@
 import Urandom.Model.ChaCha
+import Urandom.Lemmas.SimdProof
 /-
 C02 - ChaCha generators emit the genuine ChaCha keystream on every backend.
 
@@ -11,68 +12,35 @@ feed-forward) with the 64-bit counter in words 12-13 and the 64-bit stream id in
 namespace Urandom.C02
 open Urandom.ChaCha
 
-/-! ### data movement: row-wise double round = column round then diagonal round -/
+/-! ### data movement: row-wise double round = column round then diagonal round
+(proofs in `Lemmas/ChaChaBase.lean`) -/
 
 /-- for **any** quarter round: quarter round on rows, rotate rows 1/2/3, quarter round, rotate back
 (written `rotate_matrix!(a, d, c, b)` in the code) is the column round followed by the diagonal round -/
 theorem rowDouble_eq_spec {W : Type} (qr : W → W → W → W → W × W × W × W) (s : St W) :
-    (let r := toRows s; rowDouble qr r.1 r.2.1 r.2.2.1 r.2.2.2) = toRows (specDouble qr s) := rfl
+    (let r := toRows s; rowDouble qr r.1 r.2.1 r.2.2.1 r.2.2.2) = toRows (specDouble qr s) := ChaChaBase.rowDouble_eq_spec qr s
 
-theorem ofRows_toRows {W : Type} (s : St W) : ofRows (toRows s) = s := rfl
+theorem ofRows_toRows {W : Type} (s : St W) : ofRows (toRows s) = s := ChaChaBase.ofRows_toRows s
 
 theorem iter_rowDouble {W : Type} (qr : W → W → W → W → W × W × W × W) (k : Nat) (s : St W) :
     iterN (fun (r : Row W × Row W × Row W × Row W) => rowDouble qr r.1 r.2.1 r.2.2.1 r.2.2.2) k (toRows s)
-      = toRows (iterN (specDouble qr) k s) := by
-  induction k generalizing s with
-  | zero => rfl
-  | succ k ih =>
-    simp only [iterN]
-    have := rowDouble_eq_spec qr s
-    simp only at this
-    rw [this, ih]
+      = toRows (iterN (specDouble qr) k s) := ChaChaBase.iter_rowDouble qr k s
 
 /-- **every block the back ends compute is Bernstein's block function** of its initial matrix,
 for every round count -/
-theorem rowBlock_eq_spec (N : Nat) (w : St W32) : rowBlock N w = specBlockOf N w := by
-  simp only [rowBlock, specBlockOf, iter_rowDouble, ofRows_toRows]
+theorem rowBlock_eq_spec (N : Nat) (w : St W32) : rowBlock N w = specBlockOf N w := ChaChaBase.rowBlock_eq_spec N w
 
 /-! ### the 64-bit counter and stream id as two 32-bit words -/
 
-theorem lo32_join64 (lo hi : W32) : lo32 (join64 lo hi) = lo := by
-  unfold lo32 join64
-  ext i hi'
-  simp
-
-theorem hi32_join64 (lo hi : W32) : hi32 (join64 lo hi) = hi := by
-  unfold hi32 join64
-  ext i hi'
-  have h1 : 32 + i < 64 := by omega
-  have h2 : ¬ (32 + i < 32) := by omega
-  have h3 : i < 64 := by omega
-  simp [h1, h2, h3, BitVec.getLsbD_eq_getElem hi']
-
-theorem join64_split (x : BitVec 64) : join64 (lo32 x) (hi32 x) = x := by
-  unfold join64 lo32 hi32
-  ext i hi'
-  simp
-  by_cases h : i < 32
-  · simp [h, BitVec.getLsbD_eq_getElem hi']
-  · have h2 : i - 32 < 32 := by omega
-    have h3 : 32 + (i - 32) = i := by omega
-    simp [h, h2, h3, BitVec.getLsbD_eq_getElem hi']
-
-theorem allOnes32 (i : Nat) (hi : i < 32) : (4294967295#32)[i] = true := by
-  have : (4294967295#32) = BitVec.allOnes 32 := by decide
-  simp only [this, BitVec.getElem_allOnes]
+theorem lo32_join64 (lo hi : W32) : lo32 (join64 lo hi) = lo := ChaChaBase.lo32_join64 lo hi
+theorem hi32_join64 (lo hi : W32) : hi32 (join64 lo hi) = hi := ChaChaBase.hi32_join64 lo hi
+theorem join64_split (x : BitVec 64) : join64 (lo32 x) (hi32 x) = x := ChaChaBase.join64_split x
+theorem allOnes32 (i : Nat) (hi : i < 32) : (4294967295#32)[i] = true := ChaChaBase.allOnes32 i hi
 
 /-- `get_counter(set_counter(c)) = c` for every 64-bit value - in particular the carry out of the
 low 32-bit word into the high word is right -/
-theorem getCounter_setCounter (s : State) (c : BitVec 64) : (s.setCounter c).getCounter = c := by
-  simp [State.getCounter, State.setCounter, join64_split]
-
-theorem setStream_getStream (s : State) : s.setStream s.getStream = s := by
-  cases s; simp [State.setStream, State.getStream, lo32_join64, hi32_join64]
-
+theorem getCounter_setCounter (s : State) (c : BitVec 64) : (s.setCounter c).getCounter = c := ChaChaBase.getCounter_setCounter s c
+theorem setStream_getStream (s : State) : s.setStream s.getStream = s := ChaChaBase.setStream_getStream s
 theorem getStream_setCounter (s : State) (c : BitVec 64) : (s.setCounter c).getStream = s.getStream := rfl
 
 /-! ### the property -/
@@ -108,6 +76,46 @@ theorem next_batch_is_keystream (N : Nat) (s : State) :
   -- the key material is unchanged
   simp only [specBlock, h3]
   cases s; rfl
+
+/-! ### the three back ends AS TRANSLATED FROM THE SOURCE
+
+`Simd.Gen.slp`, `Simd.Gen.sse2`, `Simd.Gen.avx2` are register-machine programs that `tools/extract_simd.py` regenerates from
+`src/rng/chacha/{slp,sse2,avx2}.rs` on every run (`Generated/Simd.lean`); `Simd.Prog.block` runs one on a generator state.
+The hand-written row-wise model `ChaCha.block` is what the rest of the framework (the buffered generator, C03, C08, C19)
+is built on; these theorems tie it - and the specification - to the code text of all three back ends, including the
+two-blocks-per-register packing and the final `permute2x128` of the AVX2 one. -/
+
+/-- the portable back end (`slp.rs`), for every round count and every state -/
+theorem slp_translated_is_model (N : Nat) (s : State) :
+    Simd.Gen.slp.block N s = (Simd.batchWords (block N s).1, (block N s).2) :=
+  Simd.block_eq _ Simd.slp_T rfl rfl rfl N s
+
+/-- the SSE2 back end (`sse2.rs`) -/
+theorem sse2_translated_is_model (N : Nat) (s : State) :
+    Simd.Gen.sse2.block N s = (Simd.batchWords (block N s).1, (block N s).2) :=
+  Simd.block_eq _ Simd.sse2_T rfl rfl rfl N s
+
+/-- the AVX2 back end (`avx2.rs`) -/
+theorem avx2_translated_is_model (N : Nat) (s : State) :
+    Simd.Gen.avx2.block N s = (Simd.batchWords (block N s).1, (block N s).2) :=
+  Simd.block_eq _ Simd.avx2_T rfl rfl rfl N s
+
+/-- **every back end, as translated from its source text, writes the 64 words of the keystream blocks at counters
+`c, c+1, c+2, c+3` (mod 2^64) of the generator's key and stream id, in order, and advances the counter by 4** -/
+theorem translated_backends_are_keystream (N : Nat) (s : State) (p : Simd.Prog)
+    (hp : p = Simd.Gen.slp ∨ p = Simd.Gen.sse2 ∨ p = Simd.Gen.avx2) :
+    (p.block N s).1 = (specBlock N s s.getCounter s.getStream).words ++ (specBlock N s (s.getCounter + 1) s.getStream).words ++
+        (specBlock N s (s.getCounter + 2) s.getStream).words ++ (specBlock N s (s.getCounter + 3) s.getStream).words ∧
+    (p.block N s).2 = s.setCounter (s.getCounter + 4) := by
+  have h : p.block N s = (Simd.batchWords (block N s).1, (block N s).2) := by
+    rcases hp with rfl | rfl | rfl
+    · exact slp_translated_is_model N s
+    · exact sse2_translated_is_model N s
+    · exact avx2_translated_is_model N s
+  obtain ⟨h1, h2, h3, h4⟩ := batch_is_keystream N s
+  rw [h]
+  refine ⟨?_, (batch_advances N s).2.2⟩
+  simp only [Simd.batchWords, h1, h2, h3, h4]
 
 /-- **`from_seed` uses the documented layout**: key = the two seed halves repeated, counter 1,
 stream 0 - a function of the seed only -/
